@@ -235,6 +235,7 @@ class Interp:
         self.D = domain or nf.Domain()
         self.order = order            # callable(left Rat, op str, right Rat) -> bool|None
         self.max_depth = max_depth
+        self.memo = {}                # results of functions decorated with functools.lru_cache / cache
         self.data_kind = {}           # atoms that stand for user data (see fitmodel): atom -> generic/const/nan
         self.global_vars = {}         # (module, name) -> value assigned through a ``global`` statement
         self.depth = 0
@@ -379,6 +380,22 @@ class Interp:
             if self.depth > 0:
                 raise
             return r.raised
+        memo_key = None
+        if getattr(fn, 'decorator_list', None) and any(
+                ast.unparse(d_.func if isinstance(d_, ast.Call) else d_).split('.')[-1] in ('lru_cache', 'cache')
+                for d_ in fn.decorator_list):
+            # functools.lru_cache / cache: equal arguments give back the very same object
+            def hk(v):
+                if isinstance(v, (str, bool)) or v is None:
+                    return ('v', v)
+                if isinstance(v, Rat):
+                    return ('r', repr(v))
+                if isinstance(v, (ListV, DictV)):
+                    raise _RaisedExc(Raised('TypeError', fn))        # unhashable argument
+                return ('o', id(v))
+            memo_key = (id(fn), tuple(hk(a_) for a_ in args), tuple(sorted((k_, hk(v_)) for k_, v_ in kwargs.items())))
+            if memo_key in self.memo:
+                return self.memo[memo_key]
         self.depth += 1
         self.stack.append(id(fn))
         self.calls.append(name or fn.name)
@@ -396,6 +413,8 @@ class Interp:
             except _Return as r:
                 if is_gen:
                     return ListV(fr.yields)
+                if memo_key is not None:
+                    self.memo[memo_key] = r.value
                 return r.value
             except _RaisedExc as r:
                 if self.depth > 1:
@@ -670,6 +689,12 @@ class Interp:
             if b.is_const():
                 return self.D.powq(a, b.const_value())
             return self.D.pow_sym(a, b)
+        if op == '%':
+            va = Fr(0) if a.iszero() else (a.const_value() if a.is_const() else None)
+            vb = b.const_value() if b.is_const() else None
+            if va is not None and vb:
+                return C(va % vb)               # Python's sign convention (result has the sign of the divisor)
+            raise Unsupported('remainder of symbolic numbers')
         raise Unsupported('operator %s' % op)
 
     def _sum_binop(self, op, a, b):
@@ -1401,6 +1426,8 @@ class Frame:
                             return left % tuple(conc)
                         except (TypeError, ValueError):
                             raise _RaisedExc(Raised('TypeError', n))
+                if isinstance(left, Rat) and isinstance(right, Rat):
+                    return I.binop('%', left, right)
                 raise Unsupported('operator %', n, self.module.relpath)
             a = self.ev(n.left)
             b = self.ev(n.right)
@@ -2335,6 +2362,8 @@ def builtin_call(I, fr, name, args, kwargs, n):
             return I.D.sym('len<vec>')
         if isinstance(v, Obj) and v.ci is not None and I.repo.find_method(v.ci, '__len__', missing_ok=True):
             return I.call_method(v, '__len__', [], {})
+        if isinstance(v, Obj) and '__len__' in v.opaque_methods:
+            return v.opaque_methods['__len__'](I, v, [], {})
         if isinstance(v, Rat):
             raise _RaisedExc(Raised('TypeError', n))
         raise Unsupported('len of %r' % (v,), n)
@@ -2482,6 +2511,27 @@ def builtin_call(I, fr, name, args, kwargs, n):
             r_.is_set = True
             return r_
         raise Unsupported('set() of non-string items', n)
+    if name == 'frozenset':
+        v = args[0] if args else ListV([])
+        items = fr.iter_items(v, n)
+
+        def hashable(x):
+            if isinstance(x, (str, bool)) or x is None:
+                return True
+            if isinstance(x, Rat):
+                return x.is_const() or x.iszero() or True
+            if isinstance(x, ListV) and not getattr(x, 'is_array', False):
+                return all(hashable(y) for y in x.items)
+            return False
+        if not all(hashable(x) for x in items):
+            raise Unsupported('frozenset of unhashable items', n)
+        uniq = {}
+        for x in items:
+            uniq.setdefault(repr(I.plain(x) if isinstance(x, (str, SegStr)) else x), x)
+        r_ = ListV([uniq[k_] for k_ in sorted(uniq)])      # canonical order: equal sets have equal representations
+        r_.is_set = True
+        r_.frozen = True
+        return r_
     if name == 'sorted' and 'key' in kwargs and isinstance(args[0], ListV):
         keyf = kwargs['key']
         items = list(args[0].items)
@@ -3717,6 +3767,16 @@ def _itertools_product(I, fr, args, kwargs, n):
     return ListV([ListV(list(t)) for t in _it.product(*seqs)])
 
 
+def _itertools_comb(which):
+    def h(I, fr, args, kwargs, n):
+        import itertools as _it
+        seq = fr.iter_items(args[0], n)
+        r = _as_int(_arg(args, kwargs, 1, 'r'), n) if (len(args) > 1 or 'r' in kwargs) else None
+        f = getattr(_it, which)
+        return ListV([ListV(list(t)) for t in (f(seq, r) if r is not None else f(seq))])
+    return h
+
+
 def _itertools_chain(I, fr, args, kwargs, n):
     out = []
     for a in args:
@@ -3744,6 +3804,36 @@ def _np_flatnonzero(I, fr, args, kwargs, n):
         r.is_array = True
         return r
     raise Unsupported('np.flatnonzero operand', n)
+
+
+def _nx_graph(I):
+    """networkx graph as a plain container: nodes {key: attribute dict}, edges [(u, v)]"""
+    I.n_objects += 1
+    g = Obj('graph#%d' % I.n_objects, closed=True)
+    nodes = DictV()
+    edges = ListV([])
+    g.attrs['nodes'] = nodes
+    g.attrs['edges'] = edges
+
+    def add_node(I_, obj, args, kwargs):
+        k = nodes.nkey(args[0] if args else kwargs.pop('node_for_adding'))
+        cur = nodes.d.get(k)
+        if not isinstance(cur, DictV):
+            cur = DictV()
+            nodes.d[k] = cur
+        cur.d.update(kwargs)
+        return None
+
+    def add_edge(I_, obj, args, kwargs):
+        for x in args[:2]:
+            k = nodes.nkey(x)
+            if k not in nodes.d:
+                nodes.d[k] = DictV()
+        edges.items.append(ListV(list(args[:2])))
+        return None
+    g.opaque_methods['add_node'] = add_node
+    g.opaque_methods['add_edge'] = add_edge
+    return g
 
 
 def _np_where(I, fr, args, kwargs, n):
@@ -3871,9 +3961,13 @@ NATIVE = {
     'functools.reduce': _functools_reduce,
     'itertools.product': _itertools_product,
     'itertools.chain': _itertools_chain,
+    'itertools.combinations': _itertools_comb('combinations'),
+    'itertools.permutations': _itertools_comb('permutations'),
+    'itertools.combinations_with_replacement': _itertools_comb('combinations_with_replacement'),
     're.compile': _re_compile,
     'numpy.searchsorted': _np_searchsorted,
     'scipy.integrate.quad': _quad,
+    'networkx.Graph': lambda I, fr, args, kwargs, n: _nx_graph(I), 'networkx.DiGraph': lambda I, fr, args, kwargs, n: _nx_graph(I),
     # wall-clock text in file headers: a fixed-form stamp whose content no rule depends on
     'datetime.datetime.now': lambda I, fr, args, kwargs, n: '2000-01-01 00:00:00.000000',
     'datetime.datetime.today': lambda I, fr, args, kwargs, n: '2000-01-01 00:00:00.000000',
@@ -3906,10 +4000,11 @@ class RankOrder:
     """ordering oracle: atoms (and rational constants) are compared through an
     assumed assignment of ranks; anything else stays undecided."""
 
-    def __init__(self, ranks, const_ranks=False, fallback=None):
+    def __init__(self, ranks, const_ranks=False, fallback=None, witness=False):
         self.ranks = ranks if isinstance(ranks, dict) else dict(ranks)     # shared: callers may add ranks later
         self.const_ranks = const_ranks
         self.fallback = fallback      # callable(atom name) -> rank | None for atoms created during interpretation
+        self.witness = witness        # True: the ranks are a witness point; polynomials of ranked atoms are evaluated
 
     def rank(self, r):
         if r.is_const() or r.iszero():
@@ -3923,6 +4018,19 @@ class RankOrder:
                 if got is None and self.fallback is not None:
                     got = self.fallback(k[0][0])
                 return got
+        if self.witness and not r.has_den():
+            tot = Fr(0)
+            for k, v in r.n.t.items():
+                term = Fr(v)
+                for a_, e_ in k:
+                    ra = self.ranks.get(a_)
+                    if ra is None and self.fallback is not None:
+                        ra = self.fallback(a_)
+                    if ra is None or Fr(e_).denominator != 1:
+                        return None
+                    term *= Fr(ra) ** int(e_)
+                tot += term
+            return tot
         return None
 
     def __call__(self, a, op, b):
